@@ -199,6 +199,35 @@ def run(ctx) -> None:
                                construct="%s key=%s" % (cn or "sort", short(b, 100)))
     ctx.floor("C05.R1-numeric-iteration-order", n_sites, 2, "ordering constructs keyed on the iteration prefix")
 
+    # R1c: the printed reference of an instance ('stage%d.%s' % id, a placeholder's 'latest') is never ORDERED against another one: as
+    # text 'stage1.9#add' > 'stage1.10#add', so a "never move backwards" guard on 'latest' pins it to iteration 9 (seed C05-13)
+    def is_printed_ref(v: ast.AST) -> bool:
+        if isinstance(v, ast.BinOp) and isinstance(v.op, ast.Mod) and isinstance(v.left, ast.Constant) and isinstance(v.left.value, str) \
+                and v.left.value.startswith("stage%d."):
+            return True
+        if isinstance(v, ast.Call) and last_attr(v) == "get" and v.args and isinstance(v.args[0], ast.Constant) and v.args[0].value == "latest":
+            return True
+        return isinstance(v, ast.Subscript) and isinstance(v.slice, ast.Constant) and v.slice.value == "latest"
+    n_cmp = 0
+    for m in mods:
+        for q, fn in m.functions.items():
+            printed = set(match.locals_where(fn, is_printed_ref))
+            for cmp_ in [x for x in source.walk_own(fn, include_nested=False) if isinstance(x, ast.Compare)]:
+                n_cmp += 1
+                if not any(isinstance(o, (ast.Lt, ast.Gt, ast.LtE, ast.GtE)) for o in cmp_.ops):
+                    continue
+                sides = [cmp_.left] + list(cmp_.comparators)
+                hit = [e for e in sides if is_printed_ref(e) or (isinstance(e, ast.Name) and e.id in printed)]
+                if hit:
+                    ctx.analysed(fn)
+                    ctx.ob("C05.R1-numeric-iteration-order", cmp_, False,
+                           "%s orders the printed reference %s as text (%s): 'stage1.9#x' sorts after 'stage1.10#x', so from the tenth iteration on "
+                           "the comparison picks the wrong instance - a placeholder's 'latest' stays on iteration 9 and references from outside the "
+                           "loop resolve to it" % (q, short(hit[0], 30), short(cmp_, 60)),
+                           construct="%s: %s" % (q, short(cmp_, 80)))
+    ctx.ob("C05.R1-numeric-iteration-order", mods[0].tree, True, "%d comparisons scanned: no printed instance reference is ordered as text" % n_cmp,
+           trivial=True, construct="printed references are not ordered")
+
     # R1b: collections of looped instances must not be ordered as plain strings (keyless sorted/sort)
     LOOPED_COLLECTIONS = {"matched_components", "matched_refs", "represents", "condition_instances", "all_looped_ids", "loop_ids",
                           "looped_ids", "remaining_looped_ids"}
